@@ -302,6 +302,21 @@ pub fn c08_tables(_tier: &str) -> Value {
         if seen.len() != 18432 { return Err(format!("run {run}: {} pads covered, expected 18432", seen.len())); }
         Ok(out)
     };
+    // board tables: name <-> MAC <-> device id agree with the documented rows, for every row
+    for (name, mac, dev) in SPEC_PADWING.iter() {
+        cases += 1;
+        let by_name = PwbBoard::try_from(*name).ok();
+        let by_mac = PwbBoard::try_from(*mac).ok();
+        let by_dev = PwbBoard::try_from(*dev).ok();
+        let ok = |b: &Option<PwbBoard>| b.map(|b| b.name() == *name && b.mac_address() == *mac && b.device_id() == *dev).unwrap_or(false);
+        if !(ok(&by_name) && ok(&by_mac) && ok(&by_dev)) { return fail(format!("PadWing board {name}: name / MAC / device id look-ups disagree with the documented row"), cases); }
+        if u32::from_le_bytes([mac[0], mac[1], mac[2], mac[3]]) != *dev { return fail(format!("PadWing board {name}: device id is not the little-endian first four MAC bytes"), cases); }
+    }
+    for (name, mac) in SPEC_ALPHA16.iter() {
+        cases += 1;
+        let ok = |b: Option<A16Board>| b.map(|b| b.name() == *name && b.mac_address() == *mac).unwrap_or(false);
+        if !(ok(A16Board::try_from(*name).ok()) && ok(A16Board::try_from(*mac).ok())) { return fail(format!("Alpha16 board {name}: name / MAC look-ups disagree with the documented row"), cases); }
+    }
     let mut sim_w = None; let mut r5000_w = None; let mut sim_p = None; let mut r5000_p = None;
     for run in [2941u32, 4418, 5000, 10418, 20000, u32::MAX] {
         match wires(run, &mut cases) { Ok(v) => { if run == 5000 { r5000_w = Some(v.clone()); } if run == u32::MAX { sim_w = Some(v); } } Err(e) => return fail(e, cases) }
